@@ -427,7 +427,11 @@ theorem accountKID_inv (D : Prop) (cfg : Cfg) : ∀ s, Inv D s → Inv D (accoun
     generalize postLoop cfg resolveJWK acctURL [200] 0 s = x at this
     obtain ⟨s', r⟩ := x
     cases r with
-    | ok p => exact Inv.congr (st := s') rfl rfl rfl this
+    | ok p =>
+      simp only
+      split
+      · exact this
+      · exact Inv.congr (st := s') rfl rfl rfl this
     | error e => exact this
 
 theorem post_inv (D : Prop) (cfg : Cfg) (k : Bool) (url : String) (ok : List Nat) (st : St) (hi : Inv D st) :
@@ -578,7 +582,9 @@ theorem accountKID_dir (cfg : Cfg) (s : St) : (accountKID cfg s).1.dir = s.dir :
   · have := postLoop_dir cfg resolveJWK acctURL [200] (fun _ => rfl) 0 s
     generalize postLoop cfg resolveJWK acctURL [200] 0 s = x at this
     obtain ⟨s', r⟩ := x
-    cases r <;> exact this
+    cases r with
+    | ok p => simp only; split <;> exact this
+    | error e => exact this
 
 theorem post_dir (cfg : Cfg) (k : Bool) (url : String) (ok : List Nat) (st : St) :
     (post cfg k url ok st).1.dir = st.dir := by
@@ -645,9 +651,70 @@ theorem discover_inv (D : Prop) (cfg : Cfg) (st : St) (hi : Inv2 D st) :
       exact Inv.congr (st := { s with pool := addNonce s.pool p.nonce }) rfl rfl rfl this
 
 
-theorem post_inv2 (D : Prop) (cfg : Cfg) (k : Bool) (url : String) (ok : List Nat) (st : St)
-    (hi : Inv D st) (hd : st.dir = true) : Inv2 D (post cfg k url ok st).1 :=
-  ⟨post_inv D cfg k url ok st hi, fun h => by rw [post_dir, hd] at h; simp at h⟩
+/-- invariant plus "the directory is known" — what holds between the requests of a public call -/
+def Good (D : Prop) (st : St) : Prop := Inv D st ∧ st.dir = true
+
+theorem Good.inv2 {D : Prop} {st : St} (h : Good D st) : Inv2 D st :=
+  ⟨h.1, fun hd => by rw [h.2] at hd; simp at hd⟩
+
+theorem post_good (D : Prop) (cfg : Cfg) (k : Bool) (url : String) (ok : List Nat) (st : St)
+    (h : Good D st) : Good D (post cfg k url ok st).1 :=
+  ⟨post_inv D cfg k url ok st h.1, by rw [post_dir, h.2]⟩
+
+theorem accountKID_good (D : Prop) (cfg : Cfg) (st : St) (h : Good D st) : Good D (accountKID cfg st).1 :=
+  ⟨accountKID_inv D cfg st h.1, by rw [accountKID_dir, h.2]⟩
+
+theorem runSimple_good (D : Prop) (cfg : Cfg) (s : Simple) (st : St) (h : Good D st) :
+    Good D (runSimple cfg s st).1 := by
+  unfold runSimple
+  have hgo : ∀ url st', Good D st' → Good D
+      (match post cfg s.explicitKey url s.ok st' with
+        | (st, .ok p) =>
+          if s.decode && p.body == "bad" then (st, Outcome.err .other)
+          else if s.decode && !s.okStates.isEmpty && !s.okStates.contains (bodyStatus p.body) then (st, .err .other)
+          else (st, if s.decode then .okBody p.body else .ok)
+        | (st, .error (.status c pr)) =>
+          if s.soft != "" && pr == s.soft then
+            (st, match s.softErr with | none => Outcome.ok | some e => .err e)
+          else (st, .err (.status c pr))
+        | (st, .error e) => (st, .err e)).1 := by
+    intro url st' h'
+    have := post_good D cfg s.explicitKey url s.ok st' h'
+    generalize post cfg s.explicitKey url s.ok st' = x at this
+    obtain ⟨s1, r⟩ := x
+    cases r with
+    | ok p => simp only; split <;> first | exact this | (split <;> exact this)
+    | error e => cases e <;> simp only <;> first | exact this | (split <;> exact this)
+  simp only
+  split
+  · have hk := accountKID_good D cfg st h
+    generalize accountKID cfg st = x at hk
+    obtain ⟨s1, k⟩ := x
+    cases k
+    · exact hk
+    · exact hgo s.url s1 hk
+  · exact hgo s.url st h
+
+theorem pollLoop_good (D : Prop) (cfg : Cfg) (url : String) (ok : List Nat) (final : List String)
+    (fuel : Nat) (st : St) (h : Good D st) : Good D (pollLoop cfg url ok final fuel st).1 := by
+  induction fuel generalizing st with
+  | zero => exact h
+  | succ f ih =>
+    unfold pollLoop
+    have hp := post_good D cfg false url ok st h
+    generalize post cfg false url ok st = x at hp
+    obtain ⟨s1, r⟩ := x
+    cases r with
+    | error e => exact hp
+    | ok p =>
+      simp only
+      split
+      · exact ih s1 hp
+      · split
+        · exact hp
+        · split
+          · exact hp
+          · exact ih s1 hp
 
 theorem runCall_inv (D : Prop) (cfg : Cfg) (st : St) (c : Call) (hi : Inv2 D st) :
     Inv2 D (runCall cfg st c).1 := by
@@ -658,34 +725,53 @@ theorem runCall_inv (D : Prop) (cfg : Cfg) (st : St) (c : Call) (hi : Inv2 D st)
   cases r with
   | error e => exact h.1
   | ok u =>
-    have hd : s.dir = true := h.2 u rfl
-    have hs : Inv D s := h.1.1
+    have hg : Good D s := ⟨h.1.1, h.2 u rfl⟩
     simp only
     cases c with
     | discover => exact h.1
-    | revokeAuthz =>
-      have := post_inv2 D cfg false "authz" [200] s hs hd
-      generalize post cfg false "authz" [200] s = y at this
-      obtain ⟨s', r'⟩ := y; cases r' <;> exact this
-    | newOrder =>
-      have := post_inv2 D cfg false "order" [201] s hs hd
-      generalize post cfg false "order" [201] s = y at this
-      obtain ⟨s', r'⟩ := y; cases r' <;> exact this
-    | accept =>
-      have := post_inv2 D cfg false "chal" [200, 202] s hs hd
-      generalize post cfg false "chal" [200, 202] s = y at this
-      obtain ⟨s', r'⟩ := y; cases r' <;> exact this
-    | getAuthz =>
-      have := post_inv2 D cfg false "authz" [200] s hs hd
-      generalize post cfg false "authz" [200] s = y at this
-      obtain ⟨s', r'⟩ := y; cases r' <;> exact this
+    | simple sp => exact (runSimple_good D cfg sp s hg).inv2
     | register =>
-      have := post_inv2 D cfg true acctURL [200, 201] s hs hd
+      have := post_good D cfg true acctURL [200, 201] s hg
       generalize post cfg true acctURL [200, 201] s = y at this
       obtain ⟨s', r'⟩ := y
       cases r' with
-      | error e => exact this
-      | ok p => exact ⟨Inv.congr (st := s') rfl rfl rfl this.1, this.2⟩
+      | error e => exact this.inv2
+      | ok p =>
+        simp only
+        split
+        · exact this.inv2
+        · exact (show Good D { s' with kid := true } from ⟨Inv.congr (st := s') rfl rfl rfl this.1, this.2⟩).inv2
+    | waitAuthz => exact (pollLoop_good D cfg _ _ _ _ s hg).inv2
+    | waitOrder => exact (pollLoop_good D cfg _ _ _ _ s hg).inv2
+    | createOrderCert =>
+      have h1 := post_good D cfg false "fin" [200] s hg
+      generalize post cfg false "fin" [200] s = y at h1
+      obtain ⟨s1, r1⟩ := y
+      cases r1 with
+      | error e => exact h1.inv2
+      | ok p =>
+        simp only
+        split
+        · exact h1.inv2
+        · have h2 : Good D (if bodyStatus p.body == "valid" then (s1, Outcome.okBody p.body) else waitOrder cfg "loc" s1).1 := by
+            split
+            · exact h1
+            · exact pollLoop_good D cfg _ _ _ _ s1 h1
+          generalize (if bodyStatus p.body == "valid" then (s1, Outcome.okBody p.body) else waitOrder cfg "loc" s1) = z at h2
+          obtain ⟨s2, o2⟩ := z
+          cases o2 with
+          | ok => exact h2.inv2
+          | err e => exact h2.inv2
+          | okBody b =>
+            simp only
+            split
+            · exact h2.inv2
+            · have h3 := post_good D cfg false (if hasMember b "crt" then "cert" else "") [200] s2 h2
+              generalize post cfg false (if hasMember b "crt" then "cert" else "") [200] s2 = w at h3
+              obtain ⟨s3, r3⟩ := w
+              cases r3 with
+              | error e => exact h3.inv2
+              | ok q => simp only; split <;> split <;> exact h3.inv2
 
 theorem runCalls_inv (D : Prop) (cfg : Cfg) (calls : List Call) (st : St) (hi : Inv2 D st) :
     Inv2 D (runCalls cfg st calls).1 := by
@@ -965,7 +1051,9 @@ theorem retries_bounded_kid (cfg : Cfg) (url : String) (ok : List Nat) (st : St)
     · have := (postLoop_bounded cfg acctURL [200] 0 s (Nat.zero_le _)).1
       generalize postLoop cfg resolveJWK acctURL [200] 0 s = x at this
       obtain ⟨s', r⟩ := x
-      cases r <;> (dsimp only at this ⊢; omega)
+      cases r with
+      | ok p => dsimp only at this ⊢; split <;> (dsimp only; omega)
+      | error e => dsimp only at this ⊢; omega
   have := postLoop_bounded_gen cfg (accountKID cfg) (cfg.backoffOK + 1) hres url ok 0 st (Nat.zero_le _)
   simpa [post, Nat.add_assoc] using this
 
@@ -1353,6 +1441,94 @@ example : defaultBackoff 3 .absent 500000000 = 4500000000 := by decide
 example : defaultBackoff 7 .absent 1000000 = 10000000000 := by decide
 example : backoffSeconds 3 .absent = 4 := by decide
 
+/-! ## polling loops return the final reply -/
+
+/-- **poll_returns_final_reply.** `WaitAuthorization` / `WaitOrder` hand back the object decoded from the
+    newest response on the wire — never from an earlier poll — and only when that response shows one of
+    the final states asked for. -/
+theorem poll_returns_final_reply (cfg : Cfg) (url : String) (ok : List Nat) (final : List String)
+    (fuel : Nat) (st : St) (b : String)
+    (h : (pollLoop cfg url ok final fuel st).2 = .okBody b) :
+    ∃ p, (pollLoop cfg url ok final fuel st).1.log.head? = some (.rep p) ∧ p.body = b ∧
+      final.contains (bodyStatus b) = true ∧ ok.contains p.status = true := by
+  induction fuel generalizing st with
+  | zero => simp [pollLoop] at h
+  | succ f ih =>
+    unfold pollLoop at h ⊢
+    have hl := result_is_last_reply cfg (if false = true then resolveJWK else accountKID cfg) url ok 0 st
+    have hok : ∀ p, (post cfg false url ok st).2 = .ok p → ok.contains p.status = true := by
+      intro p hp
+      -- a success of the loop is a success of its last step
+      have hgen : ∀ n s, (postLoop cfg (if false = true then resolveJWK else accountKID cfg) url ok n s).2 = .ok p →
+          ok.contains p.status = true := by
+        intro n
+        induction hm : cfg.backoffOK + 1 - n using Nat.strongRecOn generalizing n with
+        | _ m ihn =>
+          intro s hs
+          rw [postLoop] at hs
+          have hstep : ∀ r, (postStep cfg (if false = true then resolveJWK else accountKID cfg) url ok n s).2 = .done (.ok r) →
+              ok.contains r.status = true := by
+            intro r hr
+            unfold postStep at hr
+            generalize (if false = true then resolveJWK else accountKID cfg) s = x at hr
+            obtain ⟨s0, k⟩ := x
+            simp only at hr
+            generalize popNonce cfg s0 url = x at hr
+            obtain ⟨s1, r1⟩ := x
+            cases r1 with
+            | error e => simp at hr
+            | ok v =>
+              simp only at hr
+              generalize serve s1 ⟨.post, url, some v, k⟩ = x at hr
+              obtain ⟨s2, r2⟩ := x
+              cases r2 with
+              | error e => simp at hr
+              | ok q =>
+                simp only at hr
+                by_cases hc : ok.contains q.status = true
+                · simp only [hc, if_true, StepRes.done.injEq, Except.ok.injEq] at hr
+                  subst hr; exact hc
+                · have hc' : ok.contains q.status = false := by simpa using hc
+                  simp only [hc', Bool.false_eq_true, if_false] at hr
+                  exact absurd hr (afterReply_not_ok _ _ _ _ _ _)
+          generalize hx : postStep cfg (if false = true then resolveJWK else accountKID cfg) url ok n s = x at hs hstep
+          obtain ⟨s', r⟩ := x
+          cases r with
+          | done r =>
+            simp only at hs
+            subst hs
+            exact hstep p rfl
+          | again last =>
+            simp only at hs
+            split at hs
+            · exact ihn (cfg.backoffOK + 1 - (n + 1)) (by omega) (n + 1) rfl s' hs
+            · simp at hs
+      exact hgen 0 st hp
+    unfold post at hok
+    have hpost : post cfg false url ok st = postLoop cfg (if false = true then resolveJWK else accountKID cfg) url ok 0 st := rfl
+    rw [hpost] at h ⊢
+    generalize postLoop cfg (if false = true then resolveJWK else accountKID cfg) url ok 0 st = x at h hl hok ⊢
+    obtain ⟨s1, r⟩ := x
+    cases r with
+    | error e => simp at h
+    | ok p =>
+      simp only at h hl hok ⊢
+      by_cases hb : (p.body == "bad") = true
+      · simp only [hb, if_true] at h ⊢
+        exact ih s1 h
+      · have hb' : (p.body == "bad") = false := by simpa using hb
+        simp only [hb', Bool.false_eq_true, if_false] at h ⊢
+        by_cases hi : (bodyStatus p.body == "invalid") = true
+        · simp [hi] at h
+        · have hi' : (bodyStatus p.body == "invalid") = false := by simpa using hi
+          simp only [hi', Bool.false_eq_true, if_false] at h ⊢
+          by_cases hf : final.contains (bodyStatus p.body) = true
+          · simp only [hf, if_true, Outcome.okBody.injEq] at h ⊢
+            exact ⟨p, hl, h, by rw [← h]; exact hf, hok p rfl⟩
+          · have hf' : final.contains (bodyStatus p.body) = false := by simpa using hf
+            simp only [hf', Bool.false_eq_true, if_false] at h ⊢
+            exact ih s1 h
+
 /-! ## a signed request always carries a (non-empty) nonce -/
 
 theorem nonce_nonempty (p : Resp) (v : String) (h : p.nonce = some v) : v ≠ "" := by
@@ -1399,10 +1575,10 @@ theorem signed_request_has_nonce (cfg : Cfg) (script : List Reply) (kid : Bool) 
   used_nonempty _ (nonce_from_server cfg script kid calls)
 
 /-- non-vacuity of the `no_reuse` hypothesis and of `WF` -/
-example : (scriptNonces [.resp ⟨200, "", ["a"]⟩, .fail, .resp ⟨400, "urn:x:badNonce", ["b", "c"]⟩]).Nodup := by decide
-example : WF [.req ⟨.post, "order", some "a", true⟩, .rep ⟨200, "", ["a"]⟩, .req ⟨.get, "dir", none, false⟩] := by
+example : (scriptNonces [.resp ⟨200, "", ["a"], ""⟩, .fail, .resp ⟨400, "urn:x:badNonce", ["b", "c"], ""⟩]).Nodup := by decide
+example : WF [.req ⟨.post, "order", some "a", true⟩, .rep ⟨200, "", ["a"], ""⟩, .req ⟨.get, "dir", none, false⟩] := by
   simp [WF, issuedOf, Resp.nonce, nonceFromHeader]
-example : ¬ WF [.req ⟨.post, "order", some "b", true⟩, .rep ⟨200, "", ["a"]⟩] := by
+example : ¬ WF [.req ⟨.post, "order", some "b", true⟩, .rep ⟨200, "", ["a"], ""⟩] := by
   simp [WF, issuedOf, Resp.nonce, nonceFromHeader]
 
 end XC.C50
